@@ -22,7 +22,7 @@ theorem enc_inj : ∀ (ps qs : List Bool) (i : Nat) (t u : Bool),
     cases qs with
     | nil => simp [encL, le32] at h
     | cons q qs =>
-      simp only [encL, le32, List.cons_append, List.nil_append, List.append_assoc, List.cons.injEq, true_and] at h
+      simp only [encL, le32, List.cons_append, List.nil_append, List.cons.injEq, true_and] at h
       obtain ⟨hp, hrest⟩ := h
       obtain ⟨e1, e2⟩ := ih qs (i + 1) t u hrest
       exact ⟨by rw [b2n_inj _ _ hp, e1], e2⟩
